@@ -159,6 +159,12 @@ type analysis struct {
 	// Locks: lock discipline of session.go (only when the root package is in scope)
 	Locks    []lockFact
 	HasLocks bool
+	// HandlerLocks: the same classification for every Lock() of the handler packages (the
+	// packages that have wait-for sets): kinds only, no names are consumed
+	HandlerLocks []lockFact
+	// RootChanOps: channel operations of the root package reachable from (*Session).Serve
+	RootChanOps []chanOp
+	HasRootOps  bool
 	// Gos: every go statement in scope (gofacts.go)
 	Gos []goFact
 	// Accepted: size-dependent partial operations accepted by an idiom or the allow list
@@ -265,6 +271,12 @@ func analyseScopeDerived(repo string, scope map[string]func(file string) bool, a
 		if rel == "" {
 			an.Locks = lockFactsOf(l, only("session.go"), fset)
 			an.HasLocks = true
+			_, rops, _ := waitFactsOfEntries(l, fset, rootServeEntries)
+			for i := range rops {
+				rops[i].File = strings.TrimPrefix(strings.TrimPrefix(rops[i].File, repo), "/")
+			}
+			an.RootChanOps = rops
+			an.HasRootOps = true
 		}
 		an.Gos = append(an.Gos, goFactsOf(l, scope[rel], fset)...)
 		an.Pages = append(an.Pages, pageTurnsOf(l, scope[rel])...)
@@ -274,6 +286,7 @@ func analyseScopeDerived(repo string, scope map[string]func(file string) bool, a
 			wf, ops, helpers := waitFactsOfX(l, fset)
 			if wf != nil {
 				an.Waits = append(an.Waits, wf)
+				an.HandlerLocks = append(an.HandlerLocks, lockFactsOf(l, func(n string) bool { return !strings.HasSuffix(n, "_test.go") }, fset)...)
 			}
 			for i := range ops {
 				ops[i].File = strings.TrimPrefix(strings.TrimPrefix(ops[i].File, repo), "/")
@@ -340,6 +353,8 @@ func Facts(repo string) (string, error) {
 		b.WriteString("def trustedSites : Nat := 0\n")
 		b.WriteString("def derivedSites : Nat := 0\n")
 		b.WriteString(leanLockFacts(nil, err))
+		b.WriteString(leanHandlerLockFacts(nil, false))
+		b.WriteString(leanRootChanOps(nil, false))
 		b.WriteString(leanGoFacts(nil, false))
 		b.WriteString(leanPageTurns(nil, false))
 		b.WriteString(leanHeldSends(nil, false))
@@ -387,6 +402,8 @@ func Facts(repo string) (string, error) {
 	} else {
 		b.WriteString(leanLockFacts(nil, fmt.Errorf("session.go not in scope")))
 	}
+	b.WriteString(leanHandlerLockFacts(an.HandlerLocks, true))
+	b.WriteString(leanRootChanOps(an.RootChanOps, an.HasRootOps))
 	b.WriteString(leanGoFacts(an.Gos, true))
 	b.WriteString(leanPageTurns(an.Pages, true))
 	b.WriteString(leanHeldSends(an.HeldSends, true))
